@@ -29,7 +29,8 @@ def rows : List (String × Row) := [
   ("ConvertS", { sig := [Ty.error], stack := .defaultStack, dtag := .empty, src := .empty, msg := .origErr 0, err := .param 0, shortCircuit := true })
 ]
 
-/-- every store in the code a derivation runs: (function, written expression, where it lives) -/
+/-- every store in the code a derivation runs (CloneBase, every method of `*GError`, and all package
+functions they reach): (function, written expression, where it lives) -/
 def stores : List (String × String × StoreClass) := [
   ("CloneBase", "fRef", .local),
   ("CloneBase", "clone.Source", .fresh),
@@ -40,9 +41,15 @@ def stores : List (String × String × StoreClass) := [
   ("CloneBase", "clone.Message", .fresh),
   ("CloneBase", "clone.factoryRef", .fresh),
   ("CloneBase", "clone.srcErrors", .fresh),
+  ("CloneBase", "append into slices.Clone(base.srcErrors)", .fresh),
   ("CloneBase", "clone.stack", .fresh),
   ("CloneBase", "clone.Source", .fresh),
   ("CloneBase", "clone.stack", .fresh),
+  ("Error", "result", .local),
+  ("Error", "result", .local),
+  ("Error", "result", .local),
+  ("Error", "result", .local),
+  ("Error", "result", .local),
   ("SourceInfo", "last", .local),
   ("SourceInfo", "packageName", .local),
   ("SourceInfo", "vals", .local),
@@ -52,12 +59,7 @@ def stores : List (String × String × StoreClass) := [
   ("Metric", "theRest", .local),
   ("makeStack", "pcs", .local),
   ("makeStack", "stack[i]", .fresh),
-  ("pcToStackElem", "pc", .local),
-  ("Error", "result", .local),
-  ("Error", "result", .local),
-  ("Error", "result", .local),
-  ("Error", "result", .local),
-  ("Error", "result", .local)
+  ("pcToStackElem", "pc", .local)
 ]
 
 /-- the `StackType` constants of stack.go -/
